@@ -225,6 +225,24 @@ pub fn local_failures(p: &MockProver<Fq>, cells: &[(usize, usize)]) -> usize {
     rows_near(cells, last).iter().map(|r| t.failing_at(*r)).sum()
 }
 
+/// Names of the failing gate constraints around `cells` (diagnostics).
+pub fn describe_failures(p: &MockProver<Fq>, cells: &[(usize, usize)]) -> Vec<String> {
+    let n = p.advice().first().map(|c| c.len()).unwrap_or(0) as i64;
+    let last = p.usable_rows().end.saturating_sub(1);
+    let t = Tables { p, n, ov: vec![] };
+    let mut out = vec![];
+    for row in rows_near(cells, last) {
+        for g in p.cs().gates() {
+            for (i, poly) in g.polynomials().iter().enumerate() {
+                if t.eval(poly, row) != Fq::ZERO {
+                    out.push(format!("{}#{i}@{row}", g.name()));
+                }
+            }
+        }
+    }
+    out
+}
+
 /// Limb re-decomposition: if `poly` at `row` is linear in the free cells `cells`
 /// with coefficients a_j = a_min * 2^(k_j), sets them to the radix digits of the
 /// value that zeroes it. Kept only if the failing count around the cells drops.
@@ -300,9 +318,125 @@ fn radix_repair(p: &MockProver<Fq>, n: i64, poly: &Expression<Fq>, row: usize, c
     (after < before).then_some(assign)
 }
 
+/// Joint re-solve of the values a gate row produces: the unknowns are the
+/// untouched cells queried at `row` whose copy cycle starts there (hints and
+/// outputs of this row: quotients, carries, inverses); every constraint of the
+/// row that mentions one of them must vanish. Solved as a linear system around
+/// the current values (constraints that are not jointly affine in the unknowns
+/// give up). Returns the assignment (whole cycles).
+fn joint_repair(p: &MockProver<Fq>, n: i64, mapping: &[Vec<(usize, usize)>], row: usize, touched: &[(usize, usize)]) -> Option<Vec<((usize, usize), Fq)>> {
+    let t0 = Tables { p, n, ov: vec![] };
+    let mut polys: Vec<&Expression<Fq>> = vec![];
+    for g in p.cs().gates() {
+        for poly in g.polynomials() {
+            polys.push(poly);
+        }
+    }
+    // unknown groups
+    let mut groups: Vec<Vec<(usize, usize)>> = vec![];
+    for poly in &polys {
+        if t0.eval(poly, row) == Fq::ZERO {
+            continue;
+        }
+        for c in advice_cells(poly, row, n) {
+            if touched.contains(&c) || groups.iter().any(|g| g.contains(&c)) {
+                continue;
+            }
+            if let Some(cy) = cycle_of(p, mapping, c.0, c.1) {
+                if cy.iter().all(|x| !touched.contains(x)) && cy.iter().map(|x| x.1).min() == Some(c.1) && matches!(p.advice()[c.0][c.1], CellValue::Assigned(_)) {
+                    groups.push(cy);
+                }
+            }
+        }
+    }
+    if groups.len() < 2 || groups.len() > 8 {
+        return None;
+    }
+    let cur: Vec<Fq> = groups.iter().map(|g| cell(&p.advice()[g[0].0][g[0].1])).collect();
+    let ov_for = |d: &[Fq]| -> Vec<((usize, usize), Fq)> { groups.iter().zip(d).zip(&cur).flat_map(|((g, d), c)| g.iter().map(move |x| (*x, *c + *d))).collect() };
+    // the constraints at this row (and the neighbouring rows that query these cells)
+    let last = p.usable_rows().end.saturating_sub(1);
+    let rows = rows_near(&groups.iter().map(|g| g[0]).collect::<Vec<_>>(), last);
+    let mut eqs: Vec<(Vec<Fq>, Fq)> = vec![];
+    let k = groups.len();
+    for r in rows {
+        for poly in &polys {
+            let qs = advice_cells(poly, r, n);
+            if !groups.iter().any(|g| qs.contains(&g[0])) {
+                continue;
+            }
+            let at = |d: &[Fq]| Tables { p, n, ov: ov_for(d) }.eval(poly, r);
+            let zero = vec![Fq::ZERO; k];
+            let c0 = at(&zero);
+            let mut a = vec![];
+            for j in 0..k {
+                let mut d = zero.clone();
+                d[j] = Fq::ONE;
+                a.push(at(&d) - c0);
+            }
+            if a.iter().all(|x| *x == Fq::ZERO) {
+                if c0 != Fq::ZERO && r == row {
+                    // fails whatever the unknowns are
+                }
+                continue;
+            }
+            // affine check
+            let probe: Vec<Fq> = (0..k).map(|j| Fq::from(5 + 3 * j as u64)).collect();
+            let lin = a.iter().zip(&probe).fold(c0, |acc, (a, x)| acc + *a * *x);
+            if at(&probe) != lin {
+                return None;
+            }
+            eqs.push((a, -c0));
+        }
+    }
+    if eqs.is_empty() {
+        return None;
+    }
+    // Gaussian elimination; free unknowns keep their value (d = 0)
+    let mut piv_of_col: Vec<Option<usize>> = vec![None; k];
+    let mut r0 = 0;
+    for col in 0..k {
+        let Some(pr) = (r0..eqs.len()).find(|i| eqs[*i].0[col] != Fq::ZERO) else { continue };
+        eqs.swap(r0, pr);
+        let inv = eqs[r0].0[col].invert().unwrap();
+        for x in eqs[r0].0.iter_mut() {
+            *x *= inv;
+        }
+        eqs[r0].1 *= inv;
+        let (pa, pb) = (eqs[r0].0.clone(), eqs[r0].1);
+        for (i, e) in eqs.iter_mut().enumerate() {
+            if i != r0 && e.0[col] != Fq::ZERO {
+                let f = e.0[col];
+                for (x, y) in e.0.iter_mut().zip(&pa) {
+                    *x -= f * *y;
+                }
+                e.1 -= f * pb;
+            }
+        }
+        piv_of_col[col] = Some(r0);
+        r0 += 1;
+    }
+    // inconsistent rows
+    if eqs.iter().skip(r0).any(|e| e.1 != Fq::ZERO) {
+        return None;
+    }
+    let d: Vec<Fq> = (0..k).map(|c| piv_of_col[c].map(|r| eqs[r].1).unwrap_or(Fq::ZERO)).collect();
+    if d.iter().all(|x| *x == Fq::ZERO) {
+        return None;
+    }
+    Some(ov_for(&d).into_iter().filter(|(c, v)| cell(&p.advice()[c.0][c.1]) != *v).collect())
+}
+
 /// Tries up to `depth` repairs. Returns the number of repairs made. `protected`
 /// are the cells the fault changed: failures are looked for around them.
 pub fn attempt(p: &mut MockProver<Fq>, changed: &mut Vec<(usize, usize)>, rng: &mut Prng, depth: usize) -> usize {
+    attempt_with(p, changed, rng, depth, false)
+}
+
+/// `allow_sideways`: when no step strictly reduces the failures, a step that fixes the
+/// constraint at hand and breaks exactly as many elsewhere is taken (no cell is ever
+/// changed twice, so this terminates).
+pub fn attempt_with(p: &mut MockProver<Fq>, changed: &mut Vec<(usize, usize)>, rng: &mut Prng, depth: usize, allow_sideways: bool) -> usize {
     use rayon::iter::ParallelIterator;
     let n = p.advice().first().map(|c| c.len()).unwrap_or(0) as i64;
     if n == 0 {
@@ -313,6 +447,7 @@ pub fn attempt(p: &mut MockProver<Fq>, changed: &mut Vec<(usize, usize)>, rng: &
     let last = upto.min(p.usable_rows().end.saturating_sub(1));
     let mut made = 0;
     let mut touched: Vec<(usize, usize)> = changed.clone();
+    let mut joint_tried: Vec<usize> = vec![];
     for _ in 0..depth {
         let fix: Option<Vec<((usize, usize), Fq)>> = {
             let t = Tables { p, n, ov: vec![] };
@@ -322,6 +457,16 @@ pub fn attempt(p: &mut MockProver<Fq>, changed: &mut Vec<(usize, usize)>, rng: &
                 return made;
             }
             let mut found = None;
+            let mut sideways: Option<Vec<((usize, usize), Fq)>> = None;
+            // several constraints of one row fail: re-solve what the row produces, jointly
+            if allow_sideways {
+                let first_row = fails[0].1;
+                if fails.iter().filter(|f| f.1 == first_row).count() >= 2 && !joint_tried.contains(&first_row) {
+                    joint_tried.push(first_row);
+                    found = joint_repair(p, n, &mapping, first_row, &touched);
+                }
+            }
+            if found.is_none() {
             // work on the first failing rows
             'outer: for (poly, row) in fails.iter().take(4) {
                 let mut cands = advice_cells(poly, *row, n);
@@ -360,6 +505,13 @@ pub fn attempt(p: &mut MockProver<Fq>, changed: &mut Vec<(usize, usize)>, rng: &
                             found = Some(g.iter().map(|c| (*c, root)).collect());
                             break 'outer;
                         }
+                        // the failure moves elsewhere (typically into the decomposition of the
+                        // changed cell, which a later step can redo): second choice
+                        // only for a value produced at this row (the first cell of its cycle):
+                        // the failure is pushed forward, to where the value is used
+                        if after == before && sideways.is_none() && g.len() > 1 && g.iter().map(|c| c.1).min() == Some(g[0].1) {
+                            sideways = Some(g.iter().map(|c| (*c, root)).collect());
+                        }
                     }
                 }
                 // radix repair: the polynomial is linear in several free cells whose
@@ -369,6 +521,10 @@ pub fn attempt(p: &mut MockProver<Fq>, changed: &mut Vec<(usize, usize)>, rng: &
                     found = Some(assign);
                     break 'outer;
                 }
+            }
+            }
+            if found.is_none() && allow_sideways {
+                found = sideways;
             }
             found
         };
